@@ -215,7 +215,8 @@ def run(res, info):
             continue
         if fmt == "uclchem" and proc in ("recombine", "surface", "reactive", "ecapture"):
             continue
-        for (reac, prod, dv, hv), ka, group in itertools.product(species_cases(fmt, proc), CLASSES, (0, 2)):
+        reps = range(1) if res.tier == "quick" else range(6)          # thorough: every combination under six draws of magnitude / energy source
+        for rep, (reac, prod, dv, hv), ka, group in itertools.product(reps, species_cases(fmt, proc), CLASSES, (0, 2)):
             if res.tier == "quick" and group == 2 and ka not in ("pos", "neg"):
                 continue
             mag = rng.choice([1.0, 0.5, 2.5e-3, 750.0])
